@@ -10,6 +10,7 @@ from hypothesis import strategies as st
 from .spec import INF, Ref
 
 SMALL = st.integers(-16, 16)
+DECIMALS = [0.1, 0.3, 0.7, 0.013, 1.1, 2.9, 0.0]
 
 
 def dy(draw, lo=-16, hi=16, den=8.0):
@@ -54,8 +55,13 @@ def var_bounds(draw, n, kinds=("free", "lower", "upper", "boxed", "fixed"), cent
     for j in range(n):
         kind = draw(st.sampled_from(kinds))
         c = 0.0 if center is None else float(center[j])
-        lo = c - draw(st.integers(0, 16)) / 8.0
-        hi = c + draw(st.integers(0, 16)) / 8.0
+        if draw(st.integers(0, 3)) == 0:
+            # decimal (non-dyadic) offsets: x - (x - bound) need not reproduce such a bound exactly
+            lo = c - draw(st.sampled_from(DECIMALS))
+            hi = c + draw(st.sampled_from(DECIMALS))
+        else:
+            lo = c - draw(st.integers(0, 16)) / 8.0
+            hi = c + draw(st.integers(0, 16)) / 8.0
         if kind == "free":
             lb.append(-INF), ub.append(INF)
         elif kind == "lower":
@@ -284,11 +290,14 @@ def scaling_dict_strategy(spec, kinds=("none", "custom", "nominal", "gradjac", "
         if kind == "none":
             return {"kind": "none"}
         if kind == "custom":
+            # each of the three weight groups is entirely zero in a third of the cases
+            # (objective-only, variables-only, rows-only scalings are classes of their own)
+            zv, zc, zo = (draw(st.integers(0, 2)) == 0 for _ in range(3))
             return {
                 "kind": "custom",
-                "vw": draw(st.lists(st.integers(-wmax, wmax), min_size=n, max_size=n)),
-                "cw": draw(st.lists(st.integers(-wmax, wmax), min_size=m, max_size=m)),
-                "ow": draw(st.integers(-omax, omax)),
+                "vw": [0] * n if zv else draw(st.lists(st.integers(-wmax, wmax), min_size=n, max_size=n)),
+                "cw": [0] * m if zc else draw(st.lists(st.integers(-wmax, wmax), min_size=m, max_size=m)),
+                "ow": 0 if zo else draw(st.integers(-omax, omax)),
             }
         # automatic scalings need a primal (and dual) point
         sp = dvec(draw, n, -16, 16, 4.0)
